@@ -282,13 +282,47 @@ def check(ctx):
                        "a path that holds a reserved slot answers 'rejected' (hands the item / setter back): the queue is reported full although the fullness guard passed")
     ctx.floor("R02.6", 6)
     # ---------------------------------------------------------------- R02.7 full-sync: the lock is the reservation (shared with C01 R01.6)
+    # 'one owner per pool slot' across the OgreUnique -> OgreArc conversion (shared with C14 R14.5 / R14.8): a conversion that lets the unique handle's Drop run frees
+    # the slot the new shared handle still owns -- the slot is handed out twice (two accepted events in one slot) and freed twice
+    if getattr(ctx, "pid", None) == "C02" and not isinstance(ctx, util.PrefixedCtx): __import__("importlib").import_module("props.C14").check_unique_to_shared(ctx, "R02.9")
     check_crossbeam_capacity(ctx, "R02.2")
+    check_alias_const_order(ctx, "R02.2")
     if not isinstance(ctx, util.PrefixedCtx):
         C01.check_full_sync_reservation(ctx, "R02.7")
         # R02.8 an element leaves the ring whole: it is copied out before its slot counts as free again (a producer waiting on a full ring would overwrite it mid-copy;
         # shared with C01 R01.1)
+        C01.check_crossbeam_setter_sends(ctx, "R02.6")
         C01.check_read_before_release(ctx, "R02.8")
         ctx.floor("R02.8", 4)
+
+def check_alias_const_order(ctx, rule):
+    """every type alias of the prelude hands its own BUFFER_SIZE / MAX_STREAMS / POOL_SIZE parameter to the same-named const parameter of the type it names (two `usize`
+    consts swapped type-check; the channel then has MAX_STREAMS slots per queue and BUFFER_SIZE stream ids)"""
+    fx = ctx.fx
+    n = 0
+    NAMES = {"BUFFER_SIZE", "MAX_STREAMS", "POOL_SIZE", "INSTRUMENTS"}
+    def walk(ty, alias):
+        nonlocal n
+        if not isinstance(ty, dict): return
+        if ty.get("k") == "adt":
+            tgt = fx.adts.get(ty["path"]) or {}
+            gens = [g for g in (tgt.get("generics") or []) if not str(g).startswith("'")]
+            if not gens and ty["path"] in fx.aliases: gens = [g for g in (fx.aliases[ty["path"]].get("generics") or []) if not str(g).startswith("'")]
+            args = ty.get("args", [])
+            if gens and len(gens) == len(args):
+                for g, a in zip(gens, args):
+                    if a.get("k") == "const" and a.get("s") in NAMES and g in NAMES:
+                        n += 1
+                        okc = g == a.get("s") or (g == "POOL_SIZE" and a.get("s") == "BUFFER_SIZE") or not ({g, a.get("s")} <= {"BUFFER_SIZE", "MAX_STREAMS", "POOL_SIZE"})
+                        ctx.ob(rule, f"{alias}|{ty['path'].split('::')[-1]}|{g}-gets-{a.get('s')}", okc, "",
+                               f"alias `{alias.split('::')[-1]}` passes its `{a.get('s')}` as the `{g}` parameter of `{ty['path']}`")
+            for a in args: walk(a, alias)
+        for key in ("to", "elem"):
+            if key in ty: walk(ty[key], alias)
+    for path, a in sorted(fx.aliases.items()):
+        walk(a.get("ty"), path)
+    ctx.ob(rule, "alias-const-order|instances", n >= 20, "", f"{n} const arguments of prelude aliases checked", nontrivial=False)
+
 
 def check_crossbeam_capacity(ctx, rule):
     """the crossbeam-backed channels hold exactly BUFFER_SIZE events: every `crossbeam_channel::bounded(..)` in the crate is given the generic const BUFFER_SIZE itself
